@@ -15,6 +15,7 @@
 #include <unistd.h>
 #include <fcntl.h>
 #include <algorithm>
+#include <utility>
 using namespace rtosc;
 
 struct Node;
@@ -100,6 +101,26 @@ static void calls_json(JW &w, const std::vector<Call> &cs) {
 }
 struct Cap : RtData { void reply(const char *, const char *, ...) override {} void reply(const char *) override {} void broadcast(const char *, const char *, ...) override {} void broadcast(const char *) override {} };
 
+// ---- derived tables: the same table built through MergePorts (two overlapping halves) or ClonePorts (all names, same callbacks)
+template <size_t... I> static ClonePorts *mk_clone(const Ports &p, const std::vector<ClonePort> &v, std::index_sequence<I...>) { return new ClonePorts(p, {v[I]...}); }
+template <size_t N> static ClonePorts *mk_clone_n(const Ports &p, const std::vector<ClonePort> &v) {
+    if (v.size() == N) return mk_clone(p, v, std::make_index_sequence<N>());
+    if constexpr (N > 0) return mk_clone_n<N - 1>(p, v); else return nullptr; }
+struct Route { std::string name; std::unique_ptr<Ports> owned; std::unique_ptr<DynPorts> h1, h2; Ports *top = nullptr; bool hashed = false; bool shape_ok = true; };
+static bool names_distinct(Node *n) { for (size_t i = 0; i < n->infos.size(); ++i) for (size_t j = i + 1; j < n->infos.size(); ++j) if (n->infos[i]->name == n->infos[j]->name) return false; return true; }
+static void make_route(Route &r, Node *root, bool dflt) {
+    size_t np = root->ports.ports.size(); bool any_hash = false; for (auto &pi : root->infos) if (pi->name.find('#') != std::string::npos) any_hash = true;
+    stderr_capture_begin();
+    if (r.name == "merge") { size_t k = (np + 1) / 2; r.h1.reset(new DynPorts); r.h2.reset(new DynPorts);
+        for (size_t i = 0; i < k; ++i) r.h1->ports.push_back(root->ports.ports[i]); for (size_t i = k - 1; i < np; ++i) r.h2->ports.push_back(root->ports.ports[i]);
+        r.h1->finish(); r.h2->finish(); r.owned.reset(new MergePorts({r.h1.get(), r.h2.get()})); }
+    else { std::vector<ClonePort> v; for (size_t i = 0; i < np; ++i) v.push_back({root->ports.ports[i].name, root->ports.ports[i].cb});
+        if (dflt) v.push_back({"*", root->ports.default_handler}); r.owned.reset(mk_clone_n<40>(root->ports, v)); }
+    std::string err = stderr_capture_end();
+    r.top = r.owned.get(); r.shape_ok = r.top && r.top->ports.size() == np;
+    if (r.shape_ok) for (size_t i = 0; i < np; ++i) { if (strcmp(r.top->ports[i].name, root->ports.ports[i].name)) r.shape_ok = false; port_ids[&r.top->ports[i]] = root->infos[i]->id; }
+    r.hashed = !any_hash && np > 0 && err.find("Failed to generate minimal hash") == std::string::npos; for (auto &k : root->kids) if (any_hashed(k.get())) r.hashed = true;
+}
 static void do_dispatch(const std::string &line, const J &in, FILE *out) {
     const J &tb = in["table"]; size_t np = tb["ports"].size();
     std::vector<std::vector<int>> perms; { std::vector<int> id(np); for (size_t i = 0; i < np; ++i) id[i] = (int)i; perms.push_back(id); if (np > 1) { auto r = id; std::reverse(r.begin(), r.end()); perms.push_back(r); } if (np > 2) { auto r = id; std::rotate(r.begin(), r.begin() + 1, r.end()); perms.push_back(r); } }
@@ -107,7 +128,14 @@ static void do_dispatch(const std::string &line, const J &in, FILE *out) {
     for (auto &perm : perms) {
         port_ids.clear(); objs.clear();
         std::unique_ptr<Node> root = build(tb, perm);
-        JW w; w.obj().kstr("k", "dispatch").key("table").raw("@T@").key("perm").arr(); for (int p : perm) w.num(p + 1); w.end_arr().kbool("hashed", any_hashed(root.get()));
+      std::vector<std::string> routes = {"direct"};
+      if (np >= 1 && np <= 38 && names_distinct(root.get()) && in["routes"].b) { if (!tb["dflt"].b) routes.push_back("merge"); routes.push_back("clone"); }
+      for (auto &rname : routes) {
+        Route route; route.name = rname; Ports *top = &root->ports; bool hashed = any_hashed(root.get());
+        if (rname != "direct") { make_route(route, root.get(), tb["dflt"].b); if (!route.shape_ok) { JW e; e.obj().kstr("k", "dispatch").kstr("route", rname).key("table").raw("@T@").key("perm").arr(); for (int p : perm) e.num(p + 1); e.end_arr().kbool("route_shape", false).knum("sig", 0).end_obj();
+                std::string t0 = line.substr(line.find("\"table\":") + 8); size_t c0 = t0.rfind(",\"addrs\""); if (c0 != std::string::npos) t0 = t0.substr(0, c0); std::string s0 = e.s; s0.replace(s0.find("@T@"), 3, t0); fprintf(out, "%s\n", s0.c_str()); continue; }
+            top = route.top; hashed = route.hashed; }
+        JW w; w.obj().kstr("k", "dispatch").kstr("route", rname).kbool("route_shape", true).key("table").raw("@T@").key("perm").arr(); for (int p : perm) w.num(p + 1); w.end_arr().kbool("hashed", hashed);
         w.key("results").arr();
         int sig = vg_run(60, [&] {
             for (auto &ja : in["addrs"].a) for (int t = 0; t < 3; ++t) {
@@ -117,10 +145,10 @@ static void do_dispatch(const std::string &line, const J &in, FILE *out) {
                 int h0 = vg_asan_hits;
                 // (1) without location buffer
                 calls.clear(); dflt_calls = 0; Cap d1; d1.obj = &root_obj; d1.loc = nullptr; d1.loc_size = 0;
-                root->ports.dispatch((const char *)mb.p, d1, true); auto c1 = calls; int df1 = dflt_calls; bool objrest1 = d1.obj == &root_obj;
+                top->dispatch((const char *)mb.p, d1, true); auto c1 = calls; int df1 = dflt_calls; bool objrest1 = d1.obj == &root_obj;
                 // (2) with location buffer
                 calls.clear(); dflt_calls = 0; Cap d2; char loc[256]; memset(loc, 0x7e, sizeof loc); loc[0] = 0; d2.obj = &root_obj; d2.loc = loc; d2.loc_size = sizeof loc;
-                root->ports.dispatch((const char *)mb.p, d2, true); auto c2 = calls; int df2 = dflt_calls;
+                top->dispatch((const char *)mb.p, d2, true); auto c2 = calls; int df2 = dflt_calls;
                 w.obj().kbytes("addr", (const uint8_t *)ja.text().data(), ja.text().size()).kbytes("tags", (const uint8_t *)TAGS[t], strlen(TAGS[t]));
                 w.key("noloc"); calls_json(w, c1); w.key("loc"); calls_json(w, c2);
                 w.knum("matches_noloc", d1.matches).knum("matches", d2.matches).knum("dflt_noloc", df1).knum("dflt", df2).kbool("obj_restored", objrest1 && d2.obj == &root_obj)
@@ -132,6 +160,7 @@ static void do_dispatch(const std::string &line, const J &in, FILE *out) {
         size_t cut = t.rfind(",\"addrs\""); if (cut != std::string::npos) t = t.substr(0, cut);
         std::string s = w.s; size_t pos = s.find("@T@"); s.replace(pos, 3, t);
         fprintf(out, "%s\n", s.c_str());
+      }
     }
 }
 
